@@ -101,7 +101,7 @@ def gen_history(r: random.Random, profile: str = "mix") -> Dict[str, Any]:
         if ttl is not None:
             op["ttl"] = ttl
         if typed and r.random() < 0.3:
-            op["typ"] = r.choice(["np", "fl"])
+            op["typ"] = r.choice(["np", "fl", "fr", "dc", "pk"])
         c = (continuous and outage == 0) if cont is None else cont
         if c:
             op["cont"] = True
